@@ -20,6 +20,7 @@ RULE = ('Linear lag systems x = A*LAG_x + b + g*G of 1-3 variables with generate
         'search horizon 5..200, tolerance 1e-2..1e-6, reduction on/off. Non-trivial: the search accepted and some '
         'non-excluded variable is negative at k=0, or the search rejected a drifting/unstable/oscillating system. '
         'Distinct: sha1 of the spec.')
+RULE = RULE + (' Input shapes added after the seeded-change rounds (DESIGN.md section 8): ' + 'search horizons down to 0; variables called T and K; families stock-flow-per-variable, tight-solver-tolerance (ring systems, exact period map) and the small-level kind with the bound from the changes the search actually ended with.')
 ASSUMPTIONS = [
     'family pure-lag-tight: systems without within-period coupling are solved exactly each period, so the forward step is '
     'A*(last-prev) and is bounded by max(1,|A|_inf)*max_j max(tol, 2e-4, tol*|x_j|) with no slack factor',
